@@ -475,3 +475,220 @@ pub fn ep_check_family(rng: &mut R, n: usize) -> Vec<Pos> {
     }
     out
 }
+
+/// Castling that gives check (sometimes mate): kings and rooks at home, the enemy king on the file the
+/// castled rook lands on (f for O-O, d for O-O-O) with that file open, and random men around it.
+pub fn castle_check_family(rng: &mut R, n: usize) -> Vec<Pos> {
+    let mut out = vec![];
+    let mut tries = 0;
+    while out.len() < n && tries < n * 300 {
+        tries += 1;
+        let wtm = rng.gen_bool(0.5);
+        let me: i8 = if wtm { 1 } else { -1 };
+        let home = if wtm { 0usize } else { 56 };
+        let kingside = rng.gen_bool(0.5);
+        let mut b = [0i8; 64];
+        b[home + 4] = 6 * me;
+        b[home + if kingside { 7 } else { 0 }] = 4 * me;
+        let file = if kingside { 5 } else { 3 };
+        // enemy king somewhere up the file
+        let r = rng.gen_range(2..8);
+        let ek = if wtm { r * 8 + file } else { (7 - r) * 8 + file };
+        if b[ek] != 0 {
+            continue;
+        }
+        b[ek] = -6 * me;
+        // box it in with its own men and cover squares with a few of ours
+        for (df, dr) in KING {
+            if let Some(s) = at(file as i32 + df, (ek / 8) as i32 + dr) {
+                if df != 0 && b[s as usize] == 0 && rng.gen_bool(0.5) {
+                    let k = *[1i8, 2, 3, 4].choose(rng).unwrap();
+                    if k == 1 && (s < 8 || s >= 56) {
+                        continue;
+                    }
+                    b[s as usize] = -k * me;
+                }
+            }
+        }
+        for _ in 0..rng.gen_range(0..4) {
+            let s = rng.gen_range(0..64usize);
+            let k = *[5i8, 4, 3, 2].choose(rng).unwrap();
+            if b[s] == 0 && s % 8 != file {
+                b[s] = k * me;
+            }
+        }
+        let bit = match (wtm, kingside) {
+            (true, true) => WK,
+            (true, false) => WQ,
+            (false, true) => BK,
+            (false, false) => BQ,
+        };
+        let p = Pos { b, wtm, castle: bit, ep: None, half: 0, full: 1 };
+        if !p.is_legal_position() {
+            continue;
+        }
+        if let Some(m) = p.legal_moves().iter().find(|m| m.castle.is_some()) {
+            let c = p.make(m);
+            if c.in_check(c.wtm) {
+                out.push(p);
+            }
+        }
+    }
+    out
+}
+
+/// A stalemate-like crowd in which the only pseudo-legal move is an en-passant capture that is illegal
+/// because both pawns leave the king's rank (king, pawns and an enemy rook/queen on one rank): real
+/// stalemates when nothing else can move.
+pub fn ep_rank_pin_family(rng: &mut R, n: usize) -> Vec<Pos> {
+    let mut out = vec![];
+    let mut tries = 0;
+    while out.len() < n && tries < n * 2000 {
+        tries += 1;
+        let wtm = rng.gen_bool(0.5);
+        let (pawn_r, ep_r, me, you) = if wtm { (4, 5, 1i8, -1i8) } else { (3, 2, -1i8, 1i8) };
+        // rank layout: K ... [p P | P p] ... r  (either orientation, either order of the two pawns)
+        let mut files: Vec<i32> = (0..8).collect();
+        files.shuffle(rng);
+        let kf = rng.gen_range(0..3);
+        let gap = rng.gen_range(1..3);
+        let a = kf + gap;
+        let bfile = a + 1;
+        let rf = rng.gen_range(bfile + 1..8.max(bfile + 2)).min(7);
+        if rf <= bfile {
+            continue;
+        }
+        let flip = rng.gen_bool(0.5);
+        let fx = |f: i32| if flip { 7 - f } else { f };
+        let mut b = [0i8; 64];
+        b[at(fx(kf), pawn_r).unwrap() as usize] = 6 * me;
+        let (mine_f, yours_f) = if rng.gen_bool(0.5) { (a, bfile) } else { (bfile, a) };
+        b[at(fx(mine_f), pawn_r).unwrap() as usize] = me;
+        b[at(fx(yours_f), pawn_r).unwrap() as usize] = you;
+        b[at(fx(rf), pawn_r).unwrap() as usize] = if rng.gen_bool(0.5) { 4 * you } else { 5 * you };
+        // my pawn must be blocked from pushing; the king boxed in by enemy control
+        if let Some(front) = at(fx(mine_f), ep_r) {
+            if rng.gen_bool(0.8) {
+                b[front as usize] = *[1i8, 2, 3].choose(rng).unwrap() * you;
+            }
+        }
+        let mut place = |v: i8, rng: &mut R, b: &mut [i8; 64]| {
+            for _ in 0..20 {
+                let s = rng.gen_range(0..64usize);
+                if b[s] == 0 && !(v.abs() == 1 && (s < 8 || s >= 56)) {
+                    b[s] = v;
+                    return;
+                }
+            }
+        };
+        place(-6 * me, rng, &mut b);
+        for _ in 0..rng.gen_range(1..4) {
+            let k = *[5i8, 4, 3, 2].choose(rng).unwrap();
+            place(k * you, rng, &mut b);
+        }
+        let p = Pos { b, wtm, castle: 0, ep: at(fx(yours_f), ep_r), half: 0, full: 30 };
+        if p.is_legal_position() && p.ep_pseudo() && !p.ep_legal() {
+            out.push(p);
+        }
+    }
+    out
+}
+
+/// Checkmates and stalemates with very little material (kings, minor pieces, a pawn or two): the king
+/// in or near a corner, kept only when the oracle finds no legal move.
+pub fn sparse_terminal(rng: &mut R) -> Option<Pos> {
+    let mut b = [0i8; 64];
+    let me: i8 = if rng.gen_bool(0.5) { 1 } else { -1 };
+    let corner = *[0usize, 7, 56, 63].choose(rng).unwrap();
+    let k = if rng.gen_bool(0.7) {
+        corner
+    } else {
+        let (f, r) = ((corner % 8) as i32, (corner / 8) as i32);
+        at((f + rng.gen_range(-1..=1)).clamp(0, 7), (r + rng.gen_range(-1..=1)).clamp(0, 7)).unwrap() as usize
+    };
+    b[k] = 6 * me;
+    let near = |rng: &mut R, k: usize, d: i32| -> usize {
+        let (f, r) = ((k % 8) as i32, (k / 8) as i32);
+        at((f + rng.gen_range(-d..=d)).clamp(0, 7), (r + rng.gen_range(-d..=d)).clamp(0, 7)).unwrap() as usize
+    };
+    let ek = near(rng, k, 2);
+    if b[ek] != 0 {
+        return None;
+    }
+    b[ek] = -6 * me;
+    // own side: zero to two minor pieces / pawns next to the king; enemy: one to three minors / pawns nearby
+    for _ in 0..rng.gen_range(0..3) {
+        let s = near(rng, k, 1);
+        let v = *[2i8, 3, 1].choose(rng).unwrap();
+        if b[s] == 0 && !(v == 1 && (s < 8 || s >= 56)) {
+            b[s] = v * me;
+        }
+    }
+    for _ in 0..rng.gen_range(1..4) {
+        let s = near(rng, k, 3);
+        let v = *[2i8, 3, 3, 2, 1].choose(rng).unwrap();
+        if b[s] == 0 && !(v == 1 && (s < 8 || s >= 56)) {
+            b[s] = -v * me;
+        }
+    }
+    let p = Pos { b, wtm: me > 0, castle: 0, ep: None, half: 0, full: 1 };
+    if p.is_legal_position() && p.legal_moves().is_empty() {
+        Some(p)
+    } else {
+        None
+    }
+}
+
+/// A pawn one step from promotion with the enemy king a knight's jump (or a line) away from the
+/// promotion square: under-promotions that give check.
+pub fn promotion_check_family(rng: &mut R, n: usize) -> Vec<Pos> {
+    let mut out = vec![];
+    let mut tries = 0;
+    while out.len() < n && tries < n * 200 {
+        tries += 1;
+        let wtm = rng.gen_bool(0.5);
+        let me: i8 = if wtm { 1 } else { -1 };
+        let f = rng.gen_range(0..8i32);
+        let (from_r, to_r) = if wtm { (6, 7) } else { (1, 0) };
+        let mut b = [0i8; 64];
+        b[at(f, from_r).unwrap() as usize] = me;
+        // the promotion square is empty, or a capture square next to it holds an enemy piece
+        let capture = rng.gen_bool(0.3);
+        let tf = if capture { f + if rng.gen_bool(0.5) { 1 } else { -1 } } else { f };
+        let Some(t) = at(tf, to_r) else { continue };
+        if capture {
+            b[t as usize] = -*[2i8, 3, 4].choose(rng).unwrap() * me;
+        }
+        let ek = if rng.gen_bool(0.7) {
+            let (df, dr) = *KNIGHT.choose(rng).unwrap();
+            match at(tf + df, to_r + dr) {
+                Some(s) => s as usize,
+                None => continue,
+            }
+        } else {
+            rng.gen_range(0..64usize)
+        };
+        if b[ek] != 0 {
+            continue;
+        }
+        b[ek] = -6 * me;
+        for _ in 0..20 {
+            let s = rng.gen_range(0..64usize);
+            if b[s] == 0 {
+                b[s] = 6 * me;
+                break;
+            }
+        }
+        for _ in 0..rng.gen_range(0..3) {
+            let s = rng.gen_range(8..56usize);
+            if b[s] == 0 {
+                b[s] = *[1i8, 2, 3, 4, -1, -2, -3].choose(rng).unwrap();
+            }
+        }
+        let p = Pos { b, wtm, castle: 0, ep: None, half: 0, full: 40 };
+        if p.count(6) == 1 && p.count(-6) == 1 && p.is_legal_position() && p.legal_moves().iter().any(|m| m.promo.is_some()) {
+            out.push(p);
+        }
+    }
+    out
+}
